@@ -362,6 +362,11 @@ def main(chk):
     c16 = importlib.util.module_from_spec(spec16)
     spec16.loader.exec_module(c16)
     c16.rule_alignment(chk)
+    # the ordered-index lists are read from the search structures: update() rebuilds the structure of every array, also of one that "looks unchanged" (rule shared with C01)
+    spec01 = importlib.util.spec_from_file_location('c01mod', os.path.join(os.path.dirname(os.path.abspath(__file__)), 'c01.py'))
+    c01 = importlib.util.module_from_spec(spec01)
+    spec01.loader.exec_module(c01)
+    c01.rule_refresh_unconditional(chk)
     chk.assume('that head/next, pid and key tables hold each particle exactly once is not decided (see C01)')
 
 
